@@ -7,9 +7,11 @@ import (
 	"fmt"
 	"math/rand"
 	"net/url"
+	"os"
 	"runtime"
 	"sort"
 	"strconv"
+	"strings"
 	"sync"
 	"sync/atomic"
 	"time"
@@ -372,7 +374,32 @@ func c07Round(rec *c07Recorder, nw, nr, nops, nlook int, seed int64) ([]c07Event
 		}()
 	}
 
-	wg.Wait()
+	// writers and readers must get through: if nothing ends for minutes the repository's locks are
+	// stuck (goroutine dump on stderr, exit code 3; the check repeats the run before it believes it)
+	finished := make(chan struct{})
+	go func() { wg.Wait(); close(finished) }()
+
+	select {
+	case <-finished:
+	case <-time.After(c07StallLimit):
+		buf := make([]byte, 1<<20)
+		buf = buf[:runtime.Stack(buf, true)]
+		in := map[string]int{}
+
+		for _, ln := range strings.Split(string(buf), "\n") {
+			if strings.HasPrefix(ln, "github.com/dadrus/heimdall/internal/rules") {
+				if i := strings.IndexByte(ln, '('); i > 0 {
+					ln = ln[:i]
+				}
+
+				in[ln]++
+			}
+		}
+
+		fmt.Fprintf(os.Stderr, "%s\nSTALLED: writers / readers of the repository made no progress for %s; goroutines inside %v\n",
+			buf, c07StallLimit, in)
+		os.Exit(3) //nolint:gocritic
+	}
 
 	// quiescence: the published state must reflect the last successful operation of every source
 	g := goid()
@@ -393,6 +420,8 @@ func c07Round(rec *c07Recorder, nw, nr, nops, nlook int, seed int64) ([]c07Event
 
 // c07Recover turns a panic of the code under test into a "crash" event (the property demands that
 // no interleaving crashes); the goroutine ends.
+const c07StallLimit = 150 * time.Second
+
 func c07Recover(rec *c07Recorder) {
 	if r := recover(); r != nil {
 		buf := make([]byte, 4096)
